@@ -1,6 +1,14 @@
 #!/bin/bash
 # rebuild the type-stripped client runtime from /repo's working tree
+# (checks may run side by side: the files are produced in a private directory and renamed into place one by one, so a
+# reader never meets a missing or half-written file; all builders read the same tree, so the contents agree)
 set -e
 OUT="$(cd "$(dirname "$0")/../.." && pwd)/.build/js"
-rm -rf "$OUT"; mkdir -p "$OUT"
-/root/.nvm/versions/node/v22.22.2/bin/node --no-warnings "$(dirname "$0")/strip.mjs" "$OUT"
+TMP="$OUT.tmp.$$"
+rm -rf "$TMP"; mkdir -p "$TMP" "$OUT"
+/root/.nvm/versions/node/v22.22.2/bin/node --no-warnings "$(dirname "$0")/strip.mjs" "$TMP"
+(cd "$TMP" && find . -type f | sort > "$TMP.list")
+# files of an earlier tree that this tree no longer produces
+(cd "$OUT" && find . -type f | sort | comm -23 - "$TMP.list" | while read -r f; do rm -f "$f"; done)
+(cd "$TMP" && find . -type d -exec mkdir -p "$OUT/{}" \; && while read -r f; do mv -f "$f" "$OUT/$f"; done < "$TMP.list")
+rm -rf "$TMP" "$TMP.list"
